@@ -51,6 +51,8 @@ def seeded_table():
         for pid, (rc, nv, wall) in sorted(res.get(sid, {}).items()):
             out.append(f"{pid}: {'caught (' + str(nv) + ' VIOLATION lines)' if rc == 1 else 'MISSED' if rc == 0 else 'exit ' + str(rc)}")
         hist = meta.get('history', '')
+        if meta.get('status') == 'neutralised':
+            out = [f"no longer breaks the property (neutralised by `{meta.get('neutralised_by')}`, demo passes with the patch)"]
         rows.append(f"| `seeded/{sid}` | {meta['property']} | {esc(meta['summary'])} | {esc(meta['needs_to_manifest'])} | "
                     f"{'; '.join(out) or 'not run yet'}{(' - ' + esc(hist)) if hist else ''} |")
     return '\n'.join(rows)
